@@ -392,6 +392,9 @@ impl Parse for ConversionsAttribute {
                 }
                 _ => {
                     let ty = input.parse::<syn::Type>()?;
+                    if !out.owned.tys.empty_or_trailing() {
+                        return Err(syn::Error::new(ty.span(), "expected `,`"));
+                    }
                     let _ = top_level_type.get_or_insert_with(|| ty.clone());
                     out.owned.tys.push_value(ty);
 
